@@ -7,7 +7,7 @@ import (
 
 // PPaths are projection paths (descending embedded documents; some cross
 // arrays or overlap on purpose).
-var PPaths = []string{"a", "b", "c", "d", "a.b", "a.c", "b.a", "a.b.c", "c.b", "_id"}
+var PPaths = []string{"a", "b", "c", "d", "a.b", "a.c", "b.a", "a.b.c", "c.b", "_id", "ab", "a.bc"}
 
 // Projection draws a projection document: inclusion / exclusion flags of
 // several numeric and boolean types, _id handling, $slice and $elemMatch,
